@@ -141,23 +141,26 @@ def topair(a, conj=False):
     return a.astype(float).ravel()
 
 
-def f1_case(entry, pym, rng):
-    """probe an (affine-)linear real or complex module: returns Coq check or None when not applicable"""
+def f1_case(entry, pym, rng, active=None):
+    """probe a module that is (affine-)linear in the inputs `active` (all by default) with the other inputs fixed at the
+    entry's point: returns (Coq check, meta) or None when not applicable"""
     m, ins, outs = entry['build']()
     base = [modzoo._c(x) for x in entry['ins']]
-    if any(sps.issparse(x) for x in base):
+    active = list(range(len(base))) if active is None else active
+    if any(sps.issparse(base[k]) for k in active):
         return None
     cplx_in = [np.iscomplexobj(x) for x in base]
-    sizes = [np.size(x) * (2 if c else 1) for x, c in zip(base, cplx_in)]
+    sizes = [np.size(base[k]) * (2 if cplx_in[k] else 1) for k in active]
     n = sum(sizes)
     if n > 60:
         return None
 
     def setx(vec):
-        k = 0
-        for s, x, c, sz in zip(ins, base, cplx_in, sizes):
-            seg = vec[k:k + sz]
-            k += sz
+        k0 = 0
+        for k, sz in zip(active, sizes):
+            s, x, c = ins[k], base[k], cplx_in[k]
+            seg = vec[k0:k0 + sz]
+            k0 += sz
             if c:
                 val = (seg[:sz // 2] + 1j * seg[sz // 2:]).reshape(np.shape(x))
             else:
@@ -181,10 +184,8 @@ def f1_case(entry, pym, rng):
         T[:, j] = resp(e) - y0
     x = rng.integers(-3, 4, size=n).astype(float)
     yx = resp(x) - y0
-    # sensitivity at the point x with an integer seed
     cplx_out = [np.iscomplexobj(modzoo.dense(s.state)) for s in outs]
-    wpair, k = [], 0
-    seeds = []
+    wpair, seeds = [], []
     for s, c in zip(outs, cplx_out):
         shp = np.shape(modzoo.dense(s.state))
         w = rng.integers(-3, 4, size=shp).astype(float)
@@ -196,24 +197,25 @@ def f1_case(entry, pym, rng):
         s.sensitivity = w if np.ndim(w) else (complex(w) if np.iscomplexobj(w) else float(w))
     m.sensitivity()
     g = []
-    for s, x0, c, sz in zip(ins, base, cplx_in, sizes):
-        gi = s.sensitivity
+    for k, sz in zip(active, sizes):
+        gi, c = ins[k].sensitivity, cplx_in[k]
         if gi is None:
             g.append(np.zeros(sz))
-            continue
-        gp = topair(np.asarray(gi) + (0j if c else 0.0), conj=True) if c else np.real(np.asarray(gi, dtype=complex)).ravel()
-        g.append(gp)
+        elif c:
+            g.append(topair(np.asarray(gi) + 0j, conj=True))
+        else:
+            g.append(np.real(np.asarray(gi, dtype=complex)).ravel())
     g = np.concatenate(g)
     wv = np.concatenate(wpair)
     trip = [(i, j, Fraction(float(T[i, j]))) for i in range(mm) for j in range(n) if T[i, j] != 0.0]
-    scale = max(1.0, float(np.max(np.abs(T), initial=0)) * 3 * n * 3)
+    scale = max(1.0, float(np.max(np.abs(T), initial=0)) * 3 * max(n, mm) * 3)
     tol = Fraction(scale) / 10 ** 9
     F = lambda a: [Fraction(float(v)) for v in a]
     tl = '[' + '; '.join(f'T3 {i} {j} {qlit(c)}' for i, j, c in trip) + ']'
     expr = (f'(let T := {tl} in tboundedb {mm} {n} T && '
             f'Ql_close {qlit(tol)} (apply T {mm} {ql(F(x))}) {ql(F(yx))} && '
             f'Ql_close {qlit(tol)} (apply (transpose T) {n} {ql(F(wv))}) {ql(F(g))})')
-    return expr, dict(m=mm, n=n, nnz=len(trip))
+    return expr, dict(m=mm, n=n, nnz=len(trip), active=active)
 
 
 # --------------------------------------------------------------------------------------------- F2 interval goals
@@ -356,19 +358,22 @@ def run(ctx):
         for e in E:
             if not e['linear']:
                 continue
-            try:
-                r = f1_case(e, pym, rng)
-            except Exception as ex:
-                ctx.violation('impl-violates', e['name'], 'response/sensitivity complete without raising', 'zoo entry',
-                              dict(cfg=str(e['cfg'])), got=f'{type(ex).__name__}: {str(ex)[:500]}')
-                continue
-            if r is None:
-                continue
-            expr, meta = r
-            checks.append(expr)
-            labels.append((e['name'], str(e['cfg']), meta))
-            ctx.count('f1:' + e['name'])
-            ctx.case(('f1', e['name'], str(e['cfg']), expr[:500]), meta['nnz'] >= 2, sample=dict(kind='F1 probe', module=e['name'], cfg=str(e['cfg']), **meta))
+            groups = [None] if e['linear'] is True else e['linear']      # True: jointly linear; else list of input groups
+            for active in groups:
+                try:
+                    r = f1_case(e, pym, rng, active)
+                except Exception as ex:
+                    ctx.violation('impl-violates', e['name'], 'response/sensitivity complete without raising', 'zoo entry',
+                                  dict(cfg=str(e['cfg'])), got=f'{type(ex).__name__}: {str(ex)[:500]}')
+                    continue
+                if r is None:
+                    continue
+                expr, meta = r
+                checks.append(expr)
+                labels.append((e['name'], str(e['cfg']), meta))
+                ctx.count('f1:' + e['name'])
+                ctx.case(('f1', e['name'], str(e['cfg']), expr[:500]), meta['nnz'] >= 2,
+                         sample=dict(kind='F1 probe', module=e['name'], cfg=str(e['cfg']), **meta))
     failing, err = vlib.run_cases(ctx, 'f1', HEADER_F1, checks, chunk=6)
     ctx.obligation('correspondence:F1 case files evaluated', 'correspondence', not err, err)
     ctx.obligation('correspondence:F1 sensitivity == transpose of response', 'correspondence', not failing and not err, str(failing[:10]))
